@@ -129,6 +129,9 @@ let eval fields =
     let r = z_of_hex idm1 in
     let inrange = (match r with Z0 -> true | Zpos p -> pos_bits p <= 53 | Zneg _ -> false) in
     [id; "1"], [hex_of_n (m_global_id r); b01 inrange]
+  | ["g"; r] ->
+    (* model-only query: the id the model computes for oracle value r *)
+    ["?"], [hex_of_n (m_global_id (z_of_hex r))]
   | _ -> failwith "bad line"
 
 (* The reference model speaks about IDGen only for states the generator can
@@ -154,6 +157,7 @@ let () =
   else begin
     let echo = List.mem "-echo" args in
     let domain = List.mem "-domain" args in
+    let skip_g = List.mem "-skipG" args in
     let n = ref 0 and bad = ref 0 and skipped = ref 0 in
     (try
        while true do
@@ -161,7 +165,8 @@ let () =
          if String.length line > 0 && line.[0] <> '#' then begin
            incr n;
            let fields = split line in
-           if domain && not (try in_domain fields with Failure _ -> true) then incr skipped else
+           if (skip_g && (match fields with "G" :: _ -> true | _ -> false))
+              || (domain && not (try in_domain fields with Failure _ -> true)) then incr skipped else
            match (try Some (eval fields) with Failure _ | Invalid_argument _ -> None) with
            | None -> incr skipped; Printf.printf "BADLINE %s\n" line
            | Some (exp, got) ->
